@@ -22,8 +22,19 @@ N = sp.Symbol("N", integer=True, nonnegative=True)
 g = sp.Symbol("g", positive=True)  # the gaussian exp(-a x^2), kept atomic until the comparison
 
 
+XZ = sp.Symbol("x_on_plane", real=True)  # stands for the coordinate difference inside conditions (x itself is assumed positive)
+
+
 class DirectElem(Elem):
     """`if mask.any():` / `if any(mask):` around masked assignments are analysed as taken."""
+
+    def compare(self, e):
+        # a test of the coordinate difference against 0 decides between formulas: keep it (x is positive for the algebra)
+        if len(e.ops) == 1 and isinstance(e.ops[0], (ast.Eq, ast.NotEq)) and isinstance(e.comparators[0], ast.Constant) and e.comparators[0].value == 0:
+            l = self.expr(e.left)
+            if l == x:
+                return sp.Ne(XZ, 0) if isinstance(e.ops[0], ast.NotEq) else sp.Eq(XZ, 0)
+        return super().compare(e)
 
     def on_if(self, st):
         t = st.test
@@ -89,9 +100,12 @@ def factor_of(value, what, f):
 def check_closed_form(R, f, got, order, cases, rule):
     """got: per-coordinate factor (with g atomic) as a function of symbolic n; compare with d^order/dx^order x^n e^{-a x^2}."""
     e = sp.exp(-a * x ** 2)
+    on_plane = got.has(XZ)
+    got_plane = sp.piecewise_fold(got.subs(XZ, 0)) if on_plane else None
+    got = sp.piecewise_fold(got.subs(XZ, 1)) if on_plane else got  # generic point: the coordinate difference is not zero
     for label, sub, scale in cases:
         branch = resolve_case(got, sub)
-        bad = negative_powers(branch, sub)
+        bad = negative_powers(resolve_case(got_plane, sub) if on_plane else branch, sub)
         R.check(not bad, "DEF", f.site, f"order {order}, n = {label}: powers of the coordinate difference",
                 f"for n = {label} the selected expression contains {[str(b[0]) for b in bad]} whose exponent can be negative: at a point on "
                 f"the centre/coordinate plane this is 0**negative (inf/nan) instead of the exact value",
@@ -102,6 +116,20 @@ def check_closed_form(R, f, got, order, cases, rule):
         R.check(diff == 0, rule, f.site, f"order {order}, n = {label}",
                 f"the hand-expanded {['value', 'first', 'second'][order]} derivative factor differs from d^{order}/dx^{order} x^n exp(-a x^2) for n = {label}",
                 where=f.where(), expected=str(sp.simplify(want / e)) + " * exp(-a x^2)", found=str(sp.simplify(val / e)) + " * exp(-a x^2)")
+        # a formula that branches on the coordinate itself (np.where / where= on x == 0) is also evaluated on the plane x = 0
+        if on_plane:
+            concrete = [sub] if isinstance(sub, (int, sp.Integer)) else [sub.subs(N, k) for k in (0, 1, 2)]
+            for nv in concrete:
+                try:
+                    v0 = sp.simplify(resolve_case(got_plane, nv).subs(n, nv).subs(g, e).subs(x, 0))
+                    w0 = sp.simplify(sp.diff(x ** nv * e, x, order).subs(x, 0))
+                except Exception:
+                    continue
+                if w0.is_finite is False:
+                    continue
+                R.check(sp.simplify(v0 - w0) == 0, rule, f.site, f"order {order}, n = {nv}, on the plane x = 0",
+                        f"on a point of the centre's coordinate plane (x = 0) the {['value', 'first', 'second'][order]} derivative factor for n = {nv} is "
+                        f"{v0} instead of {w0}", where=f.where(), expected=str(w0), found=str(v0))
 
 
 def run_direct(repo, R):
